@@ -32,7 +32,7 @@ def classify(line):
 
 CFG = dict(
     imports=["From Verif.C44 Require Import Model Spec.", "Open Scope N_scope."],
-    checker="check_any",
+    checker="check_all",
     n=dict(quick=160, thorough=12000),
     shard=40,
     classify=classify,
@@ -48,7 +48,11 @@ CFG = dict(
          "is a cluster of 3-5 identifiers with arbitrary Go strings as components (empty strings, prefixes, bytes >= 0x80, same "
          "orchestrator / same workload, workload and endpoint ordered in opposite directions, exact duplicates) on which the real "
          "wlIdsAscending is called for every ordered pair; the matrix must equal the model's and be a strict total order "
-         "(non-trivial there = the cluster has a workload/endpoint cross-over pair)",
+         "(non-trivial there = the cluster has a workload/endpoint cross-over pair).  Every tenth case ('stream:routes') calls the "
+         "real calculateRoutes for one endpoint: 0-3 networks, 0-2 NAT external addresses, floating IPs on/off, orchestrator "
+         "k8s/openstack/cni, live-migration state none/target/live/timewait (also set-then-reset-to-base), three normal and "
+         "three elevated priorities; routes (address, priority) must equal the model's and satisfy ok_routes "
+         "(non-trivial = has networks and NAT entries)",
     trusted=["Coq 8.16.1 kernel + vm_compute",
              "hand-written model coq/theories/C44/Model.v tied to felix/dataplane/linux/endpoint_mgr.go by this correspondence run "
              "(the implementation's observations must be producible by the model under some iteration order of the pending map)",
@@ -122,7 +126,7 @@ def replay(ctx, path):
     with open(v, "w") as f:
         f.write("From Coq Require Import List NArith ZArith String.\nImport ListNotations.\n")
         f.write("\n".join(CFG["imports"]) + "\n")
-        f.write("Definition c := match %s with CHist c => c | _ => mkCase [] end.\n" % line["coq"])
+        f.write("Definition c := match %s with KHist c => c | _ => mkCase [] end.\n" % line["coq"])
         f.write("Set Printing Width 100000.\nSet Printing Depth 1000000.\n")
         f.write("Definition verdict := Eval vm_compute in check_case c.\nPrint verdict.\n")
         f.write("Definition d := Eval vm_compute in diag c.\nPrint d.\n")
